@@ -727,6 +727,18 @@ func (fe *FuncEnc) heapsMatching(m string, ci calleeInfo) []string {
 		}
 		return out
 	}
+	if m == "maps" {
+		for _, h := range sortedKeys(fe.heapSorts) {
+			if strings.HasPrefix(h, "HM") {
+				out = append(out, h)
+			}
+		}
+		if len(out) == 0 {
+			fe.heapDecl("HMlen", "(Array Int Int)")
+			out = append(out, "HMlen")
+		}
+		return out
+	}
 	if m == "bytes" {
 		fe.heapDecl("HB", "(Array Int String)")
 		return []string{"HB"}
